@@ -222,6 +222,8 @@ var c19templates = []string{
 	/* 7 */ "function \x01o()\n local function \x02p()\n  local function \x03q() end\n end\n while true do\n  local function \x04r() end\n end\nend\nlocal function \x05s()\n for i = 1, 2 do\n  local function \x06t() end\n end\nend\n",
 	// a top-level local declared twice, the later declaration carrying the functions
 	/* 8 */ "local \x01c = nil\nlocal \x02c = {}\nfunction \x02c.load() end\nfunction \x02c:save() end\nlocal \x03h = false\nlocal function \x04h(a) end\n",
+	// members of a global table written before the statement that declares the table
+	/* 9 */ "function \x01g.load(x) end\n\x01g.dbg = true\n\x01g = {}\nfunction \x02k.run() end\n\x02k = { n = 1 }\n\x02k.more = 2\n",
 }
 
 func VerifRun_C19() {
@@ -242,8 +244,10 @@ func VerifRun_C19() {
 	nest = func(v []common.FileSymbolStruct) bool {
 		for i := range v {
 			for j := range v[i].Children {
-				if !c19contains(v[i].Loc, v[i].Children[j].Loc) {
-					return false
+				c := v[i].Children[j].Loc
+				before := c.StartLine < v[i].Loc.StartLine || (c.StartLine == v[i].Loc.StartLine && c.StartColumn < v[i].Loc.StartColumn)
+				if !before && !c19contains(v[i].Loc, c) {
+					return false // (a member written before the statement that declares its table cannot be covered)
 				}
 			}
 			if !nest(v[i].Children) {
